@@ -16,6 +16,8 @@ type Dev struct {
 	i     int
 	count int
 	Trace []int32
+	Multi   int   // scheduling points with more than one choice so far
+	FiredAt []int // value of Multi when each deviation fired
 }
 
 func (d *Dev) Spawned(g *vrt.G) {}
@@ -34,8 +36,12 @@ func (d *Dev) Pick(step int, en []*vrt.G, me *vrt.G, clockOK bool) (*vrt.G, bool
 		n++
 	}
 	choice := def
+	if n > 1 {
+		d.Multi++
+	}
 	if d.i < len(d.Devs) && n > 1 {
 		if d.count >= d.Devs[d.i].Skip {
+			d.FiredAt = append(d.FiredAt, d.Multi-1)
 			choice = (def + 1 + d.Devs[d.i].Pick%(n-1)) % n
 			d.i++
 			d.count = 0
